@@ -116,6 +116,33 @@ fn run(input: RunInput) -> ScenFuture {
         if w.flag("self_in_table", 0.5) {
             n.net.known_peers().insert(PeerInfo { peer_id: n.peer_id, affinity: PeerAffinity::High, address: vec![n.addr.into()] });
         }
+        // "Another thread" of the application rewrites one entry of the known-peer table between
+        // {High, an address where nobody answers} and {Never, a trap address} - at scheduling points,
+        // i.e. right before the connection manager (or anybody) takes the table's lock (hook H8):
+        // what a preemption between two reads of the table does on a real machine. A consistent
+        // reader sees either entry; a datagram to the trap address means a Never entry was dialed.
+        let rewriter = w.flag("known_peer_entry_rewritten_at_lock_points", 0.4);
+        let z_id = PeerId([0xC3; 32]);
+        let (z_dead, z_trap) = (addr(96), addr(97));
+        if rewriter {
+            let kp = n.net.known_peers().clone();
+            let mut pr = w.rng("wl:kp-rewriter");
+            let mut high = true;
+            kp.insert(PeerInfo { peer_id: z_id, affinity: PeerAffinity::High, address: vec![z_dead.into()] });
+            let w2 = w.clone();
+            anemo::verif::set_sched_hook(Some(Box::new(move |tag| {
+                if tag != "known-peers" || !pr.gen_bool(0.35) {
+                    return;
+                }
+                high = !high;
+                if high {
+                    kp.insert(PeerInfo { peer_id: z_id, affinity: PeerAffinity::High, address: vec![z_dead.into()] });
+                } else {
+                    kp.insert(PeerInfo { peer_id: z_id, affinity: PeerAffinity::Never, address: vec![z_trap.into()] });
+                }
+                w2.probe("known-peer-entry-rewritten-at-a-lock-point");
+            })));
+        }
         let mut r = w.rng("wl:ops");
         let mut had_failure_history = vec![false; n_targets];
         for _ in 0..n_ops {
@@ -188,6 +215,13 @@ fn run(input: RunInput) -> ScenFuture {
             }
         }
         // ---- final phase: everything reachable, every known High peer gets its live address only ----
+        if rewriter {
+            anemo::verif::set_sched_hook(None);
+            n.net.known_peers().remove(&z_id);
+            // (an attempt to the dead address may still be in flight: it holds its slot of the cap
+            // until the connect timeout)
+            sleep_ms(ct_ms + 50).await;
+        }
         let t_final = w.now_ns();
         for k in 0..n_targets {
             w.fabric.heal(n.addr, targets[k].addr);
@@ -338,6 +372,13 @@ fn run(input: RunInput) -> ScenFuture {
             if *to == n.addr {
                 w.violate("background-dial-to-self", key.clone(), format!("attempt to the dialer's own address at {} ms", at / MS));
                 continue;
+            }
+            if rewriter && *to == z_trap {
+                w.violate("background-dial-to-non-high-peer", "entry-rewritten-between-two-reads", format!("attempt at {} ms to an address that the known-peer table only ever listed under affinity Never (the entry was being rewritten between High and Never by another thread)", at / MS));
+                continue;
+            }
+            if rewriter && *to == z_dead {
+                continue; // the High incarnation of the rewritten entry: dead address, nothing to judge
             }
             let Some(&k) = owner.get(to) else {
                 w.violate("background-dial-to-unknown-address", key.clone(), format!("attempt to {to} at {} ms", at / MS));
